@@ -90,7 +90,7 @@ type Local struct {
 }
 
 func (l *Local) Count(key string, n int64) { l.counters[key] += n }
-func (l *Local) Eval(n int64)               { l.evals += n }
+func (l *Local) Eval(n int64)              { l.evals += n }
 
 // Nontrivial records one distinct non-trivial case by the hash of its identity.
 func (l *Local) Nontrivial(parts ...string) {
